@@ -364,6 +364,21 @@ func runC10(env *lib.Env, rep *lib.Report) {
 	maxAtoms := 3
 	if env.Thorough() {
 		maxAtoms = 4
+		// the full product of the rendering dimensions instead of one variation at a time
+		c10Renderings = nil
+		for kw := 0; kw < 3; kw++ {
+			for _, sep := range []string{" ", "\n", " \t  ", "\r\n"} {
+				for _, tight := range []bool{false, true} {
+					for _, opt := range []bool{true, false} {
+						for _, delim := range []bool{false, true} {
+							for _, semi := range []string{"", ";", " ;"} {
+								c10Renderings = append(c10Renderings, rendering{fmt.Sprintf("kw%d sep%q tight=%v optional=%v delimited=%v semi=%q", kw, sep, tight, opt, delim, semi), kw, sep, tight, opt, delim, semi})
+							}
+						}
+					}
+				}
+			}
+		}
 	}
 	vals := []any{cr("", "a"), cr("t", "b"), int64(1), "x"}
 	valsWide := []any{cr("", "a"), cr("t", "b"), cr("", "select"), int64(0), int64(42), int64(9223372036854775807), "", "x y", "it;s", "SELECT", "\"q\"", true, false}
